@@ -250,7 +250,7 @@ impl<'a, 'b> ScopeGen<'a, 'b> {
             let obj = self.prefix(d);
             let args = self.args(d);
             self.stat("method_call");
-            Expr::MethodCall { obj: Box::new(obj), name: self.field(), args, sugar: CallSugar::Parens }
+            Expr::MethodCall { obj: Box::new(obj), name: self.field(), types: None, args, sugar: CallSugar::Parens }
         } else {
             let f = self.prefix(d);
             let args = self.args(d);
@@ -713,7 +713,7 @@ impl<'a, 'b> ScopeGen<'a, 'b> {
                 let pl = params[params.len() - 1].name.clone();
                 let mut stmts = vec![];
                 if self.t.bool(128) {
-                    stmts.push(Stmt::Local { is_const: false, names: vec![Binding::new("r")], values: vec![Expr::MethodCall { obj: Box::new(nm(&p0)), name: "is".into(), args: vec![strlit("x")], sugar: CallSugar::Parens }] });
+                    stmts.push(Stmt::Local { is_const: false, names: vec![Binding::new("r")], values: vec![Expr::MethodCall { obj: Box::new(nm(&p0)), name: "is".into(), types: None, args: vec![strlit("x")], sugar: CallSugar::Parens }] });
                     stmts.push(Stmt::Return(vec![Expr::Binary(BinOp::Or, Box::new(Expr::Binary(BinOp::And, Box::new(nm("r")), Box::new(nm(&p0)))), Box::new(nm(&pl)))]));
                 } else {
                     stmts.push(Stmt::Return(vec![nm(&pl)]));
